@@ -278,7 +278,10 @@ class FakeWalFile:
                 a = back.model_dump(mode='json')
                 c = live.model_dump(mode='json')
                 for key in set(a) | set(c):
-                    if key == 'event_result_type':
+                    # C17 names id, type, parent, path and payload; the remaining event_* metadata (processed-at stamp,
+                    # results ...) of the live event may have moved on while the write was suspended
+                    if key.startswith('event_') and key not in ('event_id', 'event_type', 'event_parent_id', 'event_path',
+                                                                'event_created_at', 'event_timeout', 'event_schema'):
                         continue
                     if key == 'event_path':
                         # the line was serialised before the write suspended; the event may have been dispatched on since
@@ -361,6 +364,20 @@ class TBus(EventBus):
                     pass
             RT.keepalive.append(handler)   # ids of temporary handlers must not be reused within a scenario
         return r
+
+    async def execute_handler(self, event, handler, timeout=None):
+        try:
+            return await super().execute_handler(event, handler, timeout=timeout)
+        except RuntimeError as ex:
+            # `execute_handler` refuses a handler whose result is no longer pending (it was cancelled by a timeout cleanup
+            # while the activation was under way): the activation passes over it
+            if 'has already been executed' in str(ex):
+                b = RT.busidx[self]
+                e = eid(event)
+                k = RT.hidx.get((b, id(handler)), -1)
+                x = RT.act.get((b, e)) or ['?']
+                RT.rec('hSkip', x=x[-1], b=b, e=e, h=k)
+            raise
 
     async def _run_loop(self):
         rt = RT
